@@ -72,6 +72,7 @@ pub const GLOBAL_FUNCS: [(&str, u32); 4] = [("vh_g0", 10), ("vh_g1", 11), ("vh_g
 pub const PREFIX_OPS: [(&str, u32); 2] = [("vh_pre0", 20), ("vh_pre1", 21)];
 pub const INFIX_OPS: [(&str, u32); 2] = [("vh_in0", 30), ("vh_in1", 31)];
 pub const POSTFIX_OPS: [(&str, u32); 2] = [("vh_post0", 40), ("vh_post1", 41)];
+pub const SETTER_OPS: [(&str, u32); 1] = [("vh_set0", 32)];
 
 pub fn preset(id: u32) -> V {
     match id {
@@ -82,6 +83,7 @@ pub fn preset(id: u32) -> V {
         20 => V::num("3"),
         21 => V::Bool(false),
         30 => V::num("5"),
+        32 => V::num("11"),
         31 => V::Bool(true),
         40 => V::num("9"),
         41 => V::Str("p".into()),
@@ -116,6 +118,16 @@ pub fn setup() {
             let ret = preset(id);
             register_postfix_op(name, Arc::new(move |a| on_call(id, &[a], &ret)));
         }
+        for (name, id) in SETTER_OPS {
+            let ret = preset(id);
+            register_infix_op(
+                name,
+                20,
+                InfixOpType::SETTER,
+                InfixOpAssociativity::RIGHT,
+                Arc::new(move |a, b| on_call(id, &[a, b], &ret)),
+            );
+        }
     });
 }
 
@@ -132,6 +144,9 @@ pub fn loggers() -> Loggers {
     }
     for (n, id) in POSTFIX_OPS {
         l.postfix.insert(n.to_string(), (id, preset(id)));
+    }
+    for (n, id) in SETTER_OPS {
+        l.setters.insert(n.to_string(), (id, preset(id)));
     }
     l
 }
